@@ -198,6 +198,8 @@ fn scalars(em: &mut Em, thorough: bool, rng: &mut Rng) -> Result<(), String> {
     for _ in 0..(if thorough { 2000 } else { 200 }) {
         unary_inputs.push(("rand".into(), rand_scalar(rng)));
     }
+    // an inverse that hangs leaves a spinning thread behind: probe the zero class only a few times
+    let mut zero_class_inverse_probes = 0;
     for (la, a) in &unary_inputs {
         let a = *a;
         let o = guard(|| a.mod_neg());
@@ -217,24 +219,30 @@ fn scalars(em: &mut Em, thorough: bool, rng: &mut Rng) -> Result<(), String> {
         em.case("sc_op", json!({"op": "neg", "args": [sc_hex(&a)]}), imp, json!({"part": "scalar", "sop": "neg", "operands": la}));
 
         // inverse (watchdog)
-        let mut oracles = vec![];
-        let imp = match inverse_wd(&a) {
-            None => {
-                oracles.push(json!({"name": "scalar_inverse_terminates", "detail": format!("inverse({}) did not return within 1.5 s (operand class {})", sc_hex(&a), if a.is_zero() || sc_hex(&a) == R_HEX { "zero" } else { "nonzero" })}));
-                json!({"status": "hang"})
-            }
-            Some(o) => {
-                if let Out::Ok(v) = &o {
-                    if v.mul_mod(&a).map(|p| sc_hex(&p) != sc_hex(&one)).unwrap_or(true) {
-                        oracles.push(json!({"name": "scalar_inverse_is_inverse", "detail": format!("a * inverse(a) != 1 for a={}", sc_hex(&a))}));
-                    }
+        let zero_class = a.is_zero() || sc_hex(&a) == R_HEX;
+        if zero_class {
+            zero_class_inverse_probes += 1;
+        }
+        if !(zero_class && zero_class_inverse_probes > 3) {
+            let mut oracles = vec![];
+            let imp = match inverse_wd(&a) {
+                None => {
+                    oracles.push(json!({"name": "scalar_inverse_terminates", "detail": format!("inverse({}) did not return within 1.5 s (operand class {})", sc_hex(&a), if zero_class { "zero" } else { "nonzero" })}));
+                    json!({"status": "hang"})
                 }
-                sc_result(&o)
-            }
-        };
-        let mut imp = imp;
-        imp["oracles"] = json!(oracles);
-        em.case("sc_op", json!({"op": "inv", "args": [sc_hex(&a)]}), imp, json!({"part": "scalar", "sop": "inv", "operands": la}));
+                Some(o) => {
+                    if let Out::Ok(v) = &o {
+                        if v.mul_mod(&a).map(|p| sc_hex(&p) != sc_hex(&one)).unwrap_or(true) {
+                            oracles.push(json!({"name": "scalar_inverse_is_inverse", "detail": format!("a * inverse(a) != 1 for a={}", sc_hex(&a))}));
+                        }
+                    }
+                    sc_result(&o)
+                }
+            };
+            let mut imp = imp;
+            imp["oracles"] = json!(oracles);
+            em.case("sc_op", json!({"op": "inv", "args": [sc_hex(&a)]}), imp, json!({"part": "scalar", "sop": "inv", "operands": la}));
+        }
 
         // to_string / to_bytes and back
         let s = guard(|| a.to_string());
@@ -802,8 +810,8 @@ fn four_squares(em: &mut Em, thorough: bool, rng: &mut Rng) -> Result<(), String
     // below 2^32 is known to exceed it); the model follows up to budget_model; stratified samples are
     // redrawn until they are within budget_model; a fixed list of hard values gets budget_hard
     let budget_impl: f64 = 1e9;
-    let budget_model: f64 = if thorough { 3e5 } else { 2e4 };
-    let budget_hard: f64 = if thorough { 2e7 } else { 1.5e6 };
+    let budget_model: f64 = if thorough { 3e5 } else { 1e5 };
+    let budget_hard: f64 = if thorough { 2e7 } else { 3e6 };
     let budget = budget_model;
     // (c) exhaustive prefix
     let top: i64 = if thorough { 1 << 22 } else { 1 << 16 };
